@@ -34,6 +34,7 @@ type Flow struct {
 	Quick       bool   // part of the quick tier
 	Base        string // flow whose conversation is a prefix of this one
 	CredPairs   bool   // pairs of deviations are also enumerated with credentials in the URL
+	Handshake   bool   // pseudo-flow: tunnel handshake against a misbehaving peer (tunnelhs.go), not part of the control / deviation machinery
 }
 
 var flows = []*Flow{
@@ -49,6 +50,8 @@ var flows = []*Flow{
 	{Name: "record-udp", Mode: "record", Proto: "udp", Quick: false},
 	{Name: "record-auto", Mode: "record", Proto: "auto", Quick: true},
 	{Name: "backchannel-tcp", Mode: "play", Proto: "tcp", BackChannel: true, Quick: true},
+	{Name: "tunnel-http-hs", Mode: "describe", Proto: "tcp", Handshake: true},
+	{Name: "tunnel-ws-hs", Mode: "describe", Proto: "tcp", Handshake: true},
 }
 
 func flowByName(n string) *Flow {
@@ -364,6 +367,9 @@ func runCase(cs Case, mark func(step string)) *ExecResult {
 	if flow == nil {
 		res.Harness = append(res.Harness, "unknown flow "+cs.Flow)
 		return res
+	}
+	if flow.Handshake {
+		return runHandshake(cs, mark)
 	}
 	baseline := clientGoroutines()
 	env := sysx.NewEnv()
